@@ -29,6 +29,9 @@ CLAIMS = {
  "C08": dict(cat="exploration", tech="rapid grammar-based generation of template file sets with unique document ids against an independent classifier and the documented kind orders; for the creation barrier, real installs over the simulator with randomly held requests and arrival/completion stamps",
    text="Generated multi-document template sets (hooks with known/unknown events, blank and comment documents, CRLF, odd separators, NOTES and partials) must be partitioned exactly once into manifest or hook list and ordered by the documented install/uninstall kind order; real installs/uninstalls with delayed requests must never start a later kind before an earlier kind completed.",
    note="Barrier part controls the schedule only by delaying requests in the simulator; a quiescence window can hide but never raise a violation."),
+ "C09": dict(cat="exploration", tech="rapid-drawn schedules over a gate + scheduler that serialises concurrent operations at every storage call, cluster request and waiter call (shrinkable choice lists); bounded-exhaustive enumeration of all schedules with <= 2 pre-emptions; separate generated multi-goroutine workloads under the Go race detector",
+   text="Two or three concurrent installs (empty history) or upgrades (deployed history) run under a deterministic scheduler that owns the interleaving at the granularity the property names; at quiescence each storage key has one creator, losers failed with an in-progress/exists error without any write, windows do not overlap and the ledger is well-formed. The thorough tier enumerates every schedule with at most two pre-emptions for two operations on every backend (exhaustive for that bounded space only). Data races: generated concurrent workloads on each backend under -race.",
+   note="One call in flight per operation (one resource per kind, no hooks); fake clientset create is atomic; API-server optimistic concurrency not modelled; -race only sees races that the generated workloads execute."),
  "C10": dict(cat="exploration", tech="rapid state-machine (model-based) testing against a reference map, three backends in lock-step",
    text="Generated call sequences run in lock-step on the memory, Secret and ConfigMap backends and a reference map; every result and a periodic full scan are compared.",
    note="Secret/ConfigMap drivers run over client-go's fake clientset; SQL driver not covered."),
